@@ -114,8 +114,8 @@ PROPS = {
         props_v="Props/C02.v",
         corr_v=["Corr/CheckSpdx.v", "Corr/CheckCdx.v", "Corr/CheckXlate.v"],
         n_quick=70, n_thorough=2500,
-        explanation="Theorems: (round trip) for every document of the class — one root; unique, non-empty, non-reserved identifiers; every stored edge with a target is a containment edge between nodes; containment a tree under the root (witnessed by a depth function, every node but the root contained, and in one node only) — and nothing assumed about the order of the stored edges, how children are spread over edges, depth or fan-out: write-then-read returns the same node set, the same typed edge triples and the same root (cdx_tree_roundtrip: composition of the two-pass assembly, proved equal to the parent relation, with the set-level specification of RelateNodeListAtID/Add through the recursive component conversion); every tree of the class is accepted; the result is again in the class (second pass). (Any graph) every non-root node is written exactly once, nesting only under a containing node, nesting depth never limited by fuel; every BOM reads back closed with unique non-empty identifiers. (Per node) id, name, version, description, copyright; file/package kind and native component type for every purpose CycloneDX has a type for (generated tables); licence list of length 0 or 1 (longer lists: refuted by witness, known finding K13); serial number, lifecycle phases. Correspondence on three seams: Serialize vs cdx_ser, JSON layer identity on the class at 1.4 and 1.5, Unserialize vs cdx_unser_nl.",
-        assumptions=["modelled: serializer_cdx.go Serialize/componentsMaps/dependencies/components/clearAutoRefs/nodeToComponent and unserializer_cdx.go Unserialize/componentToNodeList/componentToNode/licence and external-reference helpers as struct-level functions (Model/Cdx.v); the cyclonedx-go encoder/decoder pair is observed to be the identity on the class (CChan cases), not modelled", "hash, identifier and external-reference maps per node are compared by the seams and the oracle; the theorems cover scalar attributes, kind, component type, licences", "suppliers and metadata tools/authors are outside the property"],
+        explanation="Theorems: (round trip) for every document of the class — one root; unique, non-empty, non-reserved identifiers; every stored edge with a target is a containment edge between nodes; containment a tree under the root (witnessed by a depth function, every node but the root contained, and in one node only) — and nothing assumed about the order of the stored edges, how children are spread over edges, depth or fan-out: write-then-read returns the same node set, the same typed edge triples and the same root (cdx_tree_roundtrip: composition of the two-pass assembly, proved equal to the parent relation, with the set-level specification of RelateNodeListAtID/Add through the recursive component conversion); every tree of the class is accepted; the result is again in the class (second pass). (Any graph) every non-root node is written exactly once, nesting only under a containing node, nesting depth never limited by fuel; every BOM reads back closed with unique non-empty identifiers. (Per node) id, name, version, description, copyright; file/package kind and native component type for every purpose CycloneDX has a type for; hash maps over the 12 CycloneDX algorithms; purl and CPE 2.3; external references (type among the 39 with a counterpart of their own, URL, comment, hashes) — all by the generated tables; licence list of length 0 or 1 (longer lists: refuted by witness, known finding K13); serial number, lifecycle phases. Correspondence on three seams: Serialize vs cdx_ser, JSON layer identity on the class at 1.4 and 1.5, Unserialize vs cdx_unser_nl.",
+        assumptions=["modelled: serializer_cdx.go Serialize/componentsMaps/dependencies/components/clearAutoRefs/nodeToComponent and unserializer_cdx.go Unserialize/componentToNodeList/componentToNode/licence and external-reference helpers as struct-level functions (Model/Cdx.v); the cyclonedx-go encoder/decoder pair is observed to be the identity on the class (CChan cases), not modelled", "suppliers and metadata tools/authors are outside the property"],
     ),
     "C03": dict(
         props_v="Props/C03.v",
